@@ -30,7 +30,9 @@ from vlib.c19_decode import KEEPALIVE, NOTIFICATION, OPEN, ROUTE_REFRESH, SESSIO
 from vlib.refwire import build, codec
 from vlib.refwire import strategies as ws
 
-SESS = [{k: s[k] for k in ('asn4', 'families', 'addpath', 'peer_as')} for s in SESSIONS]  # refwire.strategies session descriptions
+# refwire.strategies session descriptions (its generators know the IP families: FlowSpec is left to the flow motif)
+SESS = [dict({k: s[k] for k in ('asn4', 'addpath', 'peer_as')}, families=[f for f in s['families'] if f[1] in (1, 2, 4, 128)]) for s in SESSIONS]
+FLOW_SESSIONS = [i for i, s in enumerate(SESSIONS) if [1, 133] in s['families'] and [2, 133] in s['families']]
 NS = len(SESS)
 
 # ---------------------------------------------------------------------------- byte-level helpers (also used by the oracle)
@@ -563,7 +565,31 @@ def m_withdraw_toggle(draw, msgs: list) -> list:
     return out
 
 
+FLOW_RULES = ['03038106', '030b812e', '0603810607812e', '0803810605810050', '07018000058100500b8100']
+
+
+def m_flow_family_twins(draw, msgs: list) -> list:
+    """the same FlowSpec NLRI bytes announced for IPv4 and for IPv6 on one session (component types 3 and 11 are protocol / dscp
+    for one family and next-header / traffic-class for the other): what one family left behind must not name the other's components"""
+    if not FLOW_SESSIONS:
+        return []
+    i = draw(st.sampled_from(FLOW_SESSIONS))
+    rule = bytes.fromhex(draw(st.sampled_from(FLOW_RULES)))
+    attrs = build.attribute(0x40, 1, b'\x00') + build.attribute(0x40, 2, b'') + build.attribute(0x40, 5, b'\x00\x00\x00\x64')
+
+    def flow(afi: int) -> list:
+        mp = build.attribute(0x80, 14, bytes([0, afi, 133, 0, 0]) + rule)
+        return [i, UPDATE, build.update_body(b'', attrs + mp, b'').hex()]
+
+    first = draw(st.sampled_from([1, 2]))
+    out = [flow(first), flow(3 - first)]
+    if draw(st.booleans()):
+        out.append(flow(first))
+    return out
+
+
 MOTIFS = {
+    'flow-family-twins': (m_flow_family_twins, 2),
     'withdraw-toggle': (m_withdraw_toggle, 3),
     'cross-identical': (m_cross_identical, 5),
     'near-identical': (m_near_identical, 3),
